@@ -4,7 +4,7 @@ Environment answers (complete within the bound): a simulated `$MODULESHOME/libex
 `python load <modules>` with 0-3 lines in Lmod's python-mode format, `os.environ["K"] = "v"` / `os.environ['K'] = 'v'`,
 K in {NEW, PATH, OVERRIDE}, v in {plain, ':'-prepend of the caller's old value, value with blanks, value containing the
 delimiting quote (escaped)} [thorough: + value containing the other quote character (unescaped), mixed quote styles, every
-line order, the same key set twice], plus Lmod's failure answer `_mlstatus = False`; with and without Lmod's own
+line order of <=2 lines and both key orders of 3 lines, the same key set twice], plus Lmod's failure answer `_mlstatus = False`; with and without Lmod's own
 dressing (';' line ends and the `_mlstatus = True` trailer); one and two requested modules.
 Caller environments: every subset of {KEEP=1, PATH=/usr/bin:/bin, OVERRIDE=old} on top of the fixed variables the harness
 process needs.  The task prints its own environment (`python -c "import os,json;print(json.dumps(dict(os.environ)))"`,
@@ -258,11 +258,13 @@ def family_small():
 
 
 def family_ordered():
-    """every ordered sequence of <= 3 lines on distinct keys, 5 value kinds x 2 quote styles per line"""
+    """every ordered sequence of <= 2 lines on distinct keys and every 3-line answer in key order and in reverse key
+    order, 5 value kinds x 2 quote styles per line"""
     opts = [(kind, q) for kind in KINDS5 for q in "ds"]
     out = []
     for n in range(0, len(KEYS) + 1):
-        for keys in itertools.permutations(KEYS, n):
+        orders = list(itertools.permutations(KEYS, n)) if n < 3 else [tuple(KEYS), tuple(reversed(KEYS))]
+        for keys in orders:
             for sel in itertools.product(opts, repeat=n):
                 out.append(tuple((k, kind, q) for k, (kind, q) in zip(keys, sel)))
     return out
@@ -315,8 +317,9 @@ def run(ctx):
     from vt.par import pmap
     its = cases(ctx.thorough)
     ctx.rule = ("complete product: caller environments = all subsets of {KEEP, PATH, OVERRIDE} x lmod answers "
-                + ("(every ordered sequence of <=3 lines on distinct keys from {NEW, PATH, OVERRIDE} x 5 value kinds x 2 "
-                   "quote styles per line; every two-line answer assigning one key twice; the one-style answers also with "
+                + ("(every ordered sequence of <=2 lines on distinct keys from {NEW, PATH, OVERRIDE} and every 3-line answer "
+                   "in key order and reverse key order x 5 value kinds x 2 quote styles per line; every two-line answer "
+                   "assigning one key twice; the one-style answers also with "
                    "Lmod's dressing and with two requested modules" if ctx.thorough else
                    "(<=1 line per key of {NEW, PATH, OVERRIDE} x 4 value kinds, one quote style per answer; answers of <=1 "
                    "line also with Lmod's dressing and with two requested modules")
